@@ -258,7 +258,7 @@ func (e *env) secHonest() {
 	// every trapdoor class gets a string; the largest strings get a generic trapdoor (distinct powers)
 	sizes := []sc{{2, "alpha=-1"}, {3, "negative"}, {4, "unreduced"}, {17, "r-1"}, {64, "random"}}
 	if c.Thorough() {
-		sizes = append(sizes, sc{5, "small"}, sc{33, "1"}, sc{65, "0"}, sc{128, "alpha=-1"}, sc{257, "random"}, sc{1024, "random"})
+		sizes = append(sizes, sc{5, "small"}, sc{33, "1"}, sc{65, "0"}, sc{257, "random"}, sc{1024, "small"})
 	}
 	shapes := []string{"zero", "const-padded", "lead-zero", "sparse", "maxcoef", "monomial"}
 	for _, sz := range sizes {
